@@ -44,7 +44,7 @@ EXPLANATION = ("c02_viterbi_ml: for every int8 vector, width, even IN<=488, OUT<
 GEOMS_M17 = [(488, 240), (296, 144), (420, 206), (402, 197)]
 GEOMS_SHORT = [(2, 1), (4, 2), (6, 3), (8, 4), (10, 5), (12, 6), (16, 8), (24, 12), (10, 1), (12, 2), (16, 4), (24, 8), (4, 1), (8, 2)]
 GEOMS_EDGE = [(4, 0), (4, 3), (0, 0)]       # OUT = 0, OUT > IN/2 (correspondence only), empty input
-POLICIES = ["000", "100", "010", "110", "001", "101", "011", "111"]
+POLICIES = ["000", "100", "010", "110", "001", "101", "011", "111"] + [f"{b}:{st}" for st in range(16) for b in ("000", "001")]
 
 
 def build_model(ctx):
